@@ -25,6 +25,9 @@ Reference bookkeeping (`SpecSt`), computed from the events alone:
   of `x` forwards to `c.node`;
 * (D) routing, when no connection of `x` is open anywhere: "not connected" on every node.
   (The routing decision of a node that was shut down is not observed: `Route.down`.)
+* (A')/(B') the same two clauses for the cloud runtime state (`client.Service`: `ConnectClient` at the handshake,
+  `EnsureClientOnline` at heartbeats, `DisconnectClientIfMatch` at every close), with its own lifetime and the
+  exemption `loose` (see `rsOk`).
 Anything else in an observation (error text, wrong arity) makes `holds` false.
 -/
 namespace Tunnox.C08
@@ -69,8 +72,13 @@ structure SpecSt where
   opened : List Conn
   latest : LMap
   down : List Nat := []   -- nodes that were shut down
+  -- the cloud runtime state: same bookkeeping with its own lifetime …
+  latestRS : LMap := LMap.empty
+  -- … and the clients whose state may name a connection the server ended WITHOUT telling the cloud side
+  -- (duplicate-login eviction, shutdown: known finding `runtime-state-survives-server-side-end`), until their next handshake
+  loose : Nat → Bool := fun _ => false
 
-def SpecSt.init : SpecSt := ⟨0, [], LMap.empty, []⟩
+def SpecSt.init : SpecSt := ⟨0, [], LMap.empty, [], LMap.empty, fun _ => false⟩
 
 /-- The connection is gone: `CloseConnection` ran for it. -/
 def specClose (s : SpecSt) (c : Conn) : SpecSt :=
@@ -82,7 +90,7 @@ def specClose (s : SpecSt) (c : Conn) : SpecSt :=
       | none => s.latest }
 
 /-- `r` = what the entry point reported: nil for `open`/handshakes, "this call closed the connection" for closes. -/
-def specStep (ttl : Nat) (s : SpecSt) (r : Bool) : Ev → SpecSt
+def specStepCore (ttl : Nat) (s : SpecSt) (r : Bool) : Ev → SpecSt
   | .open c => if r then { s with opened := add c s.opened } else s
   | .hs c ok =>
     if ok && r && decide (c.client > 0) then
@@ -106,12 +114,65 @@ def specStep (ttl : Nat) (s : SpecSt) (r : Bool) : Ev → SpecSt
     match LMap.lookup s.latest c.client with
     | some p => if p.1.node = c.node ∧ p.1 ≠ c then { s with latest := LMap.erase s.latest c.client } else s
     | none => s
-  -- session manager shutdown: every stream of the node is closed (the adapters' `CloseConnection` calls follow)
-  | .shutdown n => { s with latest := LMap.dropNode s.latest n, down := n :: s.down }
+  -- session manager shutdown: every stream of the node is closed (the adapters' `CloseConnection` calls follow);
+  -- shutting a node down again changes nothing
+  | .shutdown n => if n ∈ s.down then s else { s with latest := LMap.dropNode s.latest n, down := n :: s.down }
   -- a lookup changes nothing, however its two storage round trips interleave with other events
   | .lookBegin _ _ => s
   | .lookEnd _ _ => s
   | .tick dt => { s with now := s.now + dt }
+
+def setLoose (f : Nat → Bool) (x : Nat) (b : Bool) : Nat → Bool := fun y => if y = x then b else f y
+
+/-- Reference bookkeeping of the cloud runtime state (`rsTtl` = its lifetime). -/
+def specLatestRS (rsTtl : Nat) (s : SpecSt) (r : Bool) : Ev → LMap
+  | .hs c ok =>
+    if ok && decide (c.client > 0) then
+      -- accepted and completed: the state must name `c` from now on; accepted but not completed (closed stream,
+      -- unknown connection): no obligation
+      if r then LMap.insert s.latestRS c.client (c, s.now + rsTtl) else LMap.erase s.latestRS c.client
+    else s.latestRS
+  | .hb c =>
+    match LMap.lookup s.latestRS c.client with
+    | some p =>
+      if p.1 = c then
+        if s.now ≤ p.2 then LMap.insert s.latestRS c.client (c, s.now + rsTtl) else LMap.erase s.latestRS c.client
+      else s.latestRS
+    | none => s.latestRS
+  | .close c _ =>
+    if r then
+      match LMap.lookup s.latestRS c.client with
+      | some p => if p.1 = c then LMap.erase s.latestRS c.client else s.latestRS
+      | none => s.latestRS
+    else s.latestRS
+  | .kick c =>
+    match LMap.lookup s.latestRS c.client with
+    | some p => if p.1.node = c.node ∧ p.1 ≠ c then LMap.erase s.latestRS c.client else s.latestRS
+    | none => s.latestRS
+  | .shutdown n => if n ∈ s.down then s.latestRS else LMap.dropNode s.latestRS n
+  | _ => s.latestRS
+
+def specLoose (s : SpecSt) (r : Bool) : Ev → (Nat → Bool)
+  | .hs c ok => if ok && decide (c.client > 0) then setLoose s.loose c.client (!r) else s.loose
+  | .kick c => setLoose s.loose c.client true
+  | .shutdown n => if n ∈ s.down then s.loose else fun _ => true
+  | _ => s.loose
+
+def specStep (ttl rsTtl : Nat) (s : SpecSt) (r : Bool) (e : Ev) : SpecSt :=
+  { specStepCore ttl s r e with latestRS := specLatestRS rsTtl s r e, loose := specLoose s r e }
+
+@[simp] theorem specStep_now (ttl rsTtl : Nat) (s : SpecSt) (r : Bool) (e : Ev) :
+    (specStep ttl rsTtl s r e).now = (specStepCore ttl s r e).now := rfl
+@[simp] theorem specStep_opened (ttl rsTtl : Nat) (s : SpecSt) (r : Bool) (e : Ev) :
+    (specStep ttl rsTtl s r e).opened = (specStepCore ttl s r e).opened := rfl
+@[simp] theorem specStep_latest (ttl rsTtl : Nat) (s : SpecSt) (r : Bool) (e : Ev) :
+    (specStep ttl rsTtl s r e).latest = (specStepCore ttl s r e).latest := rfl
+@[simp] theorem specStep_latestRS (ttl rsTtl : Nat) (s : SpecSt) (r : Bool) (e : Ev) :
+    (specStep ttl rsTtl s r e).latestRS = specLatestRS rsTtl s r e := rfl
+@[simp] theorem specStep_loose (ttl rsTtl : Nat) (s : SpecSt) (r : Bool) (e : Ev) :
+    (specStep ttl rsTtl s r e).loose = specLoose s r e := rfl
+@[simp] theorem specStep_down (ttl rsTtl : Nat) (s : SpecSt) (r : Bool) (e : Ev) :
+    (specStep ttl rsTtl s r e).down = (specStepCore ttl s r e).down := rfl
 
 /-- "not connected" (`FindClientNode(0)` is refused as invalid). -/
 def notConnected (x : Nat) (a : Look) : Bool :=
@@ -144,22 +205,34 @@ def routeOk (s : SpecSt) (x j : Nat) (r : Route) : Bool :=
   &&
   (s.opened.any (fun c => c.client == x) || r == .none_)
 
-def nodeViewOk (s : SpecSt) (x : Nat) : Nat → List (Look × Route) → Bool
+/-- (A') and (B') for the cloud runtime state: it names the connection of the latest completed handshake while that
+is kept alive (handshake / heartbeats at most its lifetime apart); otherwise it is absent or names an open
+connection of the client at its node (or one the server ended on its own: `loose`). -/
+def rsOk (s : SpecSt) (x : Nat) (a : Option (Nat × Conn)) : Bool :=
+  (match LMap.lookup s.latestRS x with
+   | some p => if s.now ≤ p.2 then a == some (p.1.node, p.1) else true
+   | none => true)
+  &&
+  (match a with
+   | none => true
+   | some v => decide (v.2.client = x) && decide (v.1 = v.2.node) && (decide (v.2 ∈ s.opened) || s.loose x))
+
+def nodeViewOk (s : SpecSt) (x : Nat) : Nat → List (Look × Route × Option (Nat × Conn)) → Bool
   | _, [] => true
-  | j, p :: r => lookOk s x p.1 && routeOk s x j p.2 && nodeViewOk s x (j + 1) r
+  | j, p :: r => lookOk s x p.1 && routeOk s x j p.2.1 && rsOk s x p.2.2 && nodeViewOk s x (j + 1) r
 
 /-- One observation (after one event): the watched clients in order, `nn` answers each. -/
-def obsOk (s : SpecSt) (nn : Nat) (clients : List Nat) (o : List (Nat × List (Look × Route))) : Bool :=
+def obsOk (s : SpecSt) (nn : Nat) (clients : List Nat) (o : List (Nat × List (Look × Route × Option (Nat × Conn)))) : Bool :=
   o.map (·.1) == clients && o.all (fun p => p.2.length == nn && nodeViewOk s p.1 0 p.2)
 
-def holdsFrom (ttl nn : Nat) (clients : List Nat) : SpecSt → List Ev → Obs → Bool
+def holdsFrom (ttl rsTtl nn : Nat) (clients : List Nat) : SpecSt → List Ev → Obs → Bool
   | _, [], [] => true
   | s, e :: es, o :: os =>
-    obsOk (specStep ttl s o.1 e) nn clients o.2 && holdsFrom ttl nn clients (specStep ttl s o.1 e) es os
+    obsOk (specStep ttl rsTtl s o.1 e) nn clients o.2 && holdsFrom ttl rsTtl nn clients (specStep ttl rsTtl s o.1 e) es os
   | _, _, _ => false
 
 /-- The property on an observation of a whole history. -/
 def holds (ttl nn : Nat) (clients : List Nat) (evs : List Ev) (obs : Obs) : Bool :=
-  holdsFrom ttl nn clients SpecSt.init evs obs
+  holdsFrom ttl 90000 nn clients SpecSt.init evs obs
 
 end Tunnox.C08
